@@ -25,6 +25,14 @@ Expected(e) ==
             LET w == WIFDecode(FromHex(e.s)) IN
             IF w.ok THEN [refused |-> FALSE, key |-> ToHex(w.key), compressed |-> w.compressed, net |-> w.net] ELSE Refusal
       [] e.op = "wif_encode" -> [refused |-> FALSE, v |-> ToHex(WIFEncode(FromHex(e.key), e.compressed, e.net))]
+      \* a key string (WIF, xprv, xpub incl. SLIP132) read with or without a declared network
+      [] e.op = "keyinfo" -> LET k == KeyNetwork(e.kind, FromHex(e.prefix), e.declared) IN IF k.ok THEN [refused |-> FALSE, net |-> k.net] ELSE Refusal
+      \* the address of a key on a named network: the key is e.sec whatever spelling it was passed in
+      \* (kind "sec": bare octets, no prefix to disagree with the network)
+      [] e.op = "keyaddr" -> IF e.kind # "sec" /\ ~KeyNetwork(e.kind, FromHex(e.prefix), e.net).ok THEN Refusal
+                             ELSE [refused |-> FALSE, v |-> ToHex(AddressEncode(SpkOfKey(e.fn, FromHex(e.sec)), ClassOf(e.net)))]
+      \* a ScriptPubKey built by a constructor for a named network: it remembers that network and its address is that network's
+      [] e.op = "ctor" -> [refused |-> FALSE, v |-> ToHex(AddressEncode(FromHex(e.spk), ClassOf(e.net))), net |-> e.net]
 
 EventOK == i > 0 => Expected(Trace[i]) = Trace[i].out
 Diag == i > 0 => PrintT(<<"DIAG", i, Expected(Trace[i])>>)
